@@ -14,7 +14,7 @@ META = dict(
 
 def tasks(tier):
     from vf.core import Task
-    return [Task('props.C20:ob_memo', name='C20/memo-keys', timeout=120)] + bounded_tasks('C20', tier)
+    return [Task('props.C20:ob_memo', name='C20/memo-keys', timeout=120)] + [Task('props.wire:run', name='C20/wire.c20_integrator_frame', fname='c20_integrator_frame', timeout=300), Task('props.wire:run', name='C20/wire.c20_frame_small', fname='c20_frame_small', timeout=300)] + bounded_tasks('C20', tier)
 
 
 def ob_memo():
@@ -25,7 +25,7 @@ def ob_memo():
 MANIFEST_ENTRY = dict(
     category='other',
     engine='bounded',
-    technique='bounded run-time contracts on the real functions with independent oracles (stand-in for the contract proofs, never counted as proved)',
+    technique='sidecar contracts on the real functions: wiring / closed-form obligations from the AST discharged by z3 and the ring normaliser where the functions are within reach; bounded run-time contracts with independent oracles for the rest (never counted as proved)',
     text='Frame (inputs hashed before/after), aliasing, memory layouts, call-history and hash-seed independence over a table of 87 API calls.',
     note='bounded: see coverage.bounded.drivers[].bound in the evidence file for the exact domain of every driver',
 )
